@@ -4,7 +4,7 @@ processes load it by name), nothing here depends on /verif state.
 A task class N-like type has fields
     label : int      -- the task's id in the generated graph (also what its result term carries)
     deps  : Any      -- tasks nested in tuples / lists / dicts at any depth
-    beh   : str      -- 'ok' | 'raise' | 'die' | 'unpicklable' | 'slow'
+    beh   : str      -- 'ok' | 'raise' | 'die' | 'unpicklable' | 'slow' | 'linger'
     reads : tuple    -- indices into flat(deps): which dependency results run() reads
     talk  : tuple    -- log/print/flush script executed by run()
 and run() returns the free term ('N', label, (results read...)).
@@ -126,6 +126,16 @@ def _run(self):
     _record(self, 'end')
     if self.beh == 'unpicklable':
         return (value, Unpicklable())
+    if self.beh == 'linger' and os.environ.get('LV_LINGER_FLAG'):
+        # the task is over, but its process stays alive for a while (a non-daemon helper thread that is still tidying up):
+        # until the harness says so (after run_tasks has returned), at most LV_LINGER_MAX seconds
+        import threading
+
+        def _tidy(flag=os.environ['LV_LINGER_FLAG'], limit=float(os.environ.get('LV_LINGER_MAX', '12'))):
+            deadline = time.monotonic() + limit
+            while not os.path.exists(flag) and time.monotonic() < deadline:
+                time.sleep(0.02)
+        threading.Thread(target=_tidy, daemon=False).start()
     return value
 
 
@@ -321,6 +331,17 @@ VJ = make_vtype('VJ', ['x'], cache=JsonCache())
 VN = make_vtype('VN', ['x'], cache=None)
 VPost = make_vtype('VPost', ['x'], post_init=True)
 VRewrite = make_rewrite_type()
+
+
+def _vrun_none(self) -> None:
+    VRUN_COUNT[0] += 1
+
+
+# run() declared `-> None` (as opposed to not annotated at all)
+VNoneRet = labtech.task(type('VNoneRet', (), {'__annotations__': {'x': Any}, 'run': _vrun_none, '__module__': __name__, '__qualname__': 'VNoneRet'}))
+# parameters with defaults: a value that is == to the default but of another type (1 / 1.0 / True) is still another parameter value
+VDef = labtech.task(type('VDef', (), {'__annotations__': {'x': Any, 'y': Any}, 'x': 1, 'y': (1, 2), 'run': _vrun,
+                                      '__module__': __name__, '__qualname__': 'VDef'}))
 # module-level task types whose class names are not ASCII (valid Python identifiers)
 Vuni1 = make_vtype('Exp\u00e9rience', ['x'])
 Vuni2 = make_vtype('\u5b9f\u9a132', ['x'])
